@@ -199,6 +199,16 @@ func runSession(k sessKind, pw string, lg *capLog) []string {
 	return lg.take()
 }
 
+// very short passwords made of digits and punctuation collide with counters, ports and durations in the log
+func isDigitsOrPunct(s string) bool {
+	for i := 0; i < len(s); i++ {
+		if c := s[i]; (c >= 'a' && c <= 'z') || (c >= 'A' && c <= 'Z') {
+			return false
+		}
+	}
+	return true
+}
+
 func latinAll(l []string) []string {
 	r := make([]string, len(l))
 	for i, s := range l {
@@ -231,9 +241,20 @@ func RunLog(args []string) int {
 	defer logging.SetLogger(nil)
 	ks := kinds()
 	// baselines: the same sessions without a password; a candidate password must not occur in them
+	// ... in any of them, run twice: what a session logs also depends on timing (how far it got before a
+	// write failed) and on counters (network names); a password that occurs in this corpus by accident
+	// ("W" in "Welcome", "2" in a port or a counter) says nothing when it is found in a record
 	baseline := map[string]string{}
-	for _, k := range ks {
-		baseline[k.name] = strings.Join(runSession(k, "", lg), "\n")
+	corpus := ""
+	for round := 0; round < 2; round++ {
+		for _, k := range ks {
+			if k.flood && round == 1 {
+				continue
+			}
+			b := strings.Join(runSession(k, "", lg), "\n")
+			baseline[k.name] += b + "\n"
+			corpus += b + "\n"
+		}
 	}
 	printable := ""
 	for c := 0x21; c <= 0x7e; c++ {
@@ -245,7 +266,9 @@ func RunLog(args []string) int {
 		pws = append(pws, p)
 	}
 	for len(pws) < *np {
-		n := 1 + rng.Intn(24)
+		// random passwords of 5..28 characters: shorter ones (the fixed list has some) are all but certain to occur
+		// in unrelated log text; those that do are skipped below
+		n := 5 + rng.Intn(24)
 		b := make([]byte, n)
 		for i := range b {
 			b[i] = printable[rng.Intn(len(printable))]
@@ -259,7 +282,7 @@ func RunLog(args []string) int {
 			if k.flood && pi >= 2 {
 				continue // seconds per session: the first two passwords only
 			}
-			if strings.Contains(baseline[k.name], pw) || strings.Contains("-> PASS **************", pw) {
+			if strings.Contains(corpus, pw) || strings.Contains("-> PASS **************", pw) || (len(pw) < 4 && isDigitsOrPunct(pw)) {
 				skipped++ // the password is a substring of what this session logs anyway
 				continue
 			}
